@@ -8,6 +8,9 @@ import (
 	"strconv"
 	"strings"
 	"text/template"
+	"unicode"
+	"unicode/utf16"
+	"unicode/utf8"
 
 	"github.com/robfig/soy/ast"
 	"github.com/robfig/soy/data"
@@ -162,7 +165,7 @@ func (s *state) walk(node ast.Node) {
 		s.js("null")
 	case *ast.StringNode:
 		s.js("'")
-		template.JSEscape(s.wr, []byte(node.Value))
+		jsEscape(s.wr, []byte(node.Value))
 		s.js("'")
 	case *ast.IntNode:
 		s.js(node.String())
@@ -199,7 +202,7 @@ func (s *state) walk(node ast.Node) {
 			}
 			first = false
 			s.js("\"")
-			template.JSEscape(s.wr, []byte(k))
+			jsEscape(s.wr, []byte(k))
 			s.js("\":")
 			s.walk(node.Items[k])
 		}
@@ -256,7 +259,9 @@ func (s *state) walk(node ast.Node) {
 }
 
 func (s *state) visitSoyFile(node *ast.SoyFileNode) {
-	s.jsln("// This file was automatically generated from ", template.JSEscapeString(node.Name), ".")
+	s.js("// This file was automatically generated from ")
+	jsEscape(s.wr, []byte(node.Name))
+	s.jsln(".")
 	s.jsln("// Please don't edit this file by hand.")
 	s.jsln("")
 	s.visitChildren(node)
@@ -740,10 +745,29 @@ func (s *state) nodeFromValue(pos ast.Pos, val data.Value) ast.Node {
 	panic("unreachable")
 }
 
+// jsEscape writes the body of a JavaScript string literal for b. It is
+// template.JSEscape, except that an unprintable character beyond U+FFFF is
+// written as its surrogate pair: JSEscape writes such a character as \u followed
+// by five or six hex digits, which JavaScript reads as another string.
+func jsEscape(w io.Writer, b []byte) {
+	var start = 0
+	for i := 0; i < len(b); {
+		var r, size = utf8.DecodeRune(b[i:])
+		if r > 0xFFFF && !unicode.IsPrint(r) {
+			template.JSEscape(w, b[start:i])
+			var hi, lo = utf16.EncodeRune(r)
+			fmt.Fprintf(w, `\u%04X\u%04X`, hi, lo)
+			start = i + size
+		}
+		i += size
+	}
+	template.JSEscape(w, b[start:])
+}
+
 func (s *state) writeRawText(text []byte) {
 	s.indent()
 	s.js(s.bufferName, " += '")
-	template.JSEscape(s.wr, text)
+	jsEscape(s.wr, text)
 	s.js("';\n")
 }
 
